@@ -630,7 +630,7 @@ func failedResultNotUsed(r *an.Run, rule string) {
 									if e == ssa.Value(ex) {
 										pred := x.Block().Preds[ei]
 										if onlyFail[pred] || isFailEdge(fail, pred, x.Block()) {
-											if cu := unguardedConsumer(f, x); cu != nil {
+											if cu := unguardedConsumer(r.P, f, x); cu != nil {
 												bad, why = cu, "is carried on from the failure branch (phi edge from block "+pred.String()+") and then consumed without a nil test"
 											}
 										}
@@ -831,7 +831,11 @@ func lowLeHigh(f *ssa.Function, s *ssa.Slice) string {
 // merged value (through further phis) that consumes it — a call argument, a
 // dereference, a store, a return — and is not behind the non-nil edge of a nil
 // test of the value it uses; nil when every consumer is guarded.
-func unguardedConsumer(f *ssa.Function, phi *ssa.Phi) ssa.Instruction {
+func unguardedConsumer(p *an.Prog, f *ssa.Function, phi ssa.Value) ssa.Instruction {
+	return unguardedConsumerAt(p, f, phi, 0)
+}
+
+func unguardedConsumerAt(prog *an.Prog, f *ssa.Function, phi ssa.Value, depth int) ssa.Instruction {
 	closure := map[ssa.Value]bool{phi: true}
 	work := []ssa.Value{phi}
 	for len(work) > 0 {
@@ -865,6 +869,40 @@ func unguardedConsumer(f *ssa.Function, phi *ssa.Phi) ssa.Instruction {
 			}
 			if len(nonNil) > 0 && unreachableWithout(u.Block(), nonNil) {
 				continue
+			}
+			// handed back to the callers: guarded when every caller tests it before consuming it
+			if ret, ok := u.(*ssa.Return); ok && depth < 2 && prog != nil {
+				idx := -1
+				for i, res := range ret.Results {
+					if res == v {
+						idx = i
+					}
+				}
+				callers := prog.CallersOf(f)
+				guarded := idx >= 0 && len(callers) > 0
+				for _, c := range callers {
+					call, ok := c.(*ssa.Call)
+					if !ok {
+						guarded = false
+						break
+					}
+					var results []ssa.Value
+					if len(ret.Results) == 1 {
+						results = []ssa.Value{call}
+					} else {
+						for _, ex := range an.ExtractOf(call, idx) {
+							results = append(results, ex)
+						}
+					}
+					for _, rv := range results {
+						if unguardedConsumerAt(prog, call.Parent(), rv, depth+1) != nil {
+							guarded = false
+						}
+					}
+				}
+				if guarded {
+					continue
+				}
 			}
 			return u
 		}
